@@ -12,6 +12,10 @@ package output
 //@   ensures [loaded_flag] err == nil ==> target.OutputsLoaded
 //@   ensures [output_hash_from_result] err == nil && !old(target.OutputsLoaded) ==> target.OutputHash == targetResult.OutputHash
 //@   ensures [already_loaded_untouched] old(target.OutputsLoaded) ==> target.OutputHash == old(target.OutputHash)
+//@   ensures [restores_only_matching_results] err == nil && !old(target.OutputsLoaded) ==> targetResult != nil &&
+//@        len(sortseq(outDefBag(target.Outputs, target.BinOutput))) == len(sortseq(bagOf(storedDefsOf(targetResult.Outputs)))) &&
+//@        (forall i int :: {sortseq(outDefBag(target.Outputs, target.BinOutput))[i]} 0 <= i && i < len(sortseq(outDefBag(target.Outputs, target.BinOutput))) ==>
+//@          sortseq(outDefBag(target.Outputs, target.BinOutput))[i] == sortseq(bagOf(storedDefsOf(targetResult.Outputs)))[i])
 //@   ensures [failure_leaves_flag] err != nil ==> target.OutputsLoaded == old(target.OutputsLoaded) && target.OutputHash == old(target.OutputHash)
 //@   ghostset target.restoreTried := true
 //@   ghostset target.restored := err == nil
@@ -29,3 +33,22 @@ package output
 //@   allocates res
 //@   ensures [result_shape] err == nil ==> res != nil && res.ChangeHash == target.ChangeHash && len(res.Outputs) == 0
 //@   ensures [nil_on_error] err != nil ==> res == nil
+
+// C01/C02: "restore validates declared outputs against the stored result": a stored result is used only if the multiset of
+// its output definitions equals the multiset the target declares now.
+//@ func getOutputDefinitionsFromProto(outputs) (defs, err)
+//@   trusted
+//@   pure
+//@   ensures [named] err == nil ==> defs == storedDefsOf(outputs) && len(defs) >= 0
+
+//@ func validateTargetResultOutputs(target, targetResult) (err)
+//@   pure
+//@   ensures [nil_result_rejected] targetResult == nil ==> err != nil
+//@   ensures [same_definitions] err == nil ==> loadedOutputDefinitions == storedDefsOf(targetResult.Outputs) && len(expectedOutputDefinitions) == len(loadedOutputDefinitions) &&
+//@        (forall i int :: {sortedOf(expectedOutputDefinitions)[i]} 0 <= i && i < len(expectedOutputDefinitions) ==> sortedOf(expectedOutputDefinitions)[i] == sortedOf(loadedOutputDefinitions)[i])
+//@   ensures [stored_definitions_match_declared] err == nil ==> len(sortseq(outDefBag(target.Outputs, target.BinOutput))) == len(sortseq(bagOf(storedDefsOf(targetResult.Outputs)))) &&
+//@        (forall i int :: {sortseq(outDefBag(target.Outputs, target.BinOutput))[i]} 0 <= i && i < len(sortseq(outDefBag(target.Outputs, target.BinOutput))) ==>
+//@          sortseq(outDefBag(target.Outputs, target.BinOutput))[i] == sortseq(bagOf(storedDefsOf(targetResult.Outputs)))[i])
+//@ loop #1
+//@   invariant [sorted_copies] sortedExpectedOutputDefinitions == sortedOf(expectedOutputDefinitions) && sortedLoadedOutputDefinitions == sortedOf(loadedOutputDefinitions) && len(expectedOutputDefinitions) == len(loadedOutputDefinitions)
+//@   invariant [equal_so_far] forall i int :: {sortedOf(expectedOutputDefinitions)[i]} 0 <= i && i <= rangeindex ==> sortedOf(expectedOutputDefinitions)[i] == sortedOf(loadedOutputDefinitions)[i]
